@@ -149,6 +149,7 @@ type Term struct {
 	C        uint64 // constant payload: BV value (masked), bool (0/1), FP bits
 	Name     string // var / UF name
 	HasF     bool   // mentions floating point somewhere below
+	HardF    bool   // mentions a floating-point division or square root of non-constant operands
 	vars     []int  // variable ids below (lazily computed)
 	varsDone bool
 }
@@ -196,9 +197,13 @@ func (s *TermStore) mk(op Op, sort Sort, c uint64, name string, args ...*Term) *
 		t.Args = append([]*Term(nil), args...)
 	}
 	t.HasF = sort.IsFP()
+	t.HardF = op == OpFDiv || op == OpFSqrt
 	for _, a := range args {
 		if a.HasF {
 			t.HasF = true
+		}
+		if a.HardF {
+			t.HardF = true
 		}
 	}
 	s.nextID++
